@@ -296,10 +296,10 @@ func runType(t *testing.T, typ uint16, quickRuns, thoroughRuns, perRun int) {
 	})
 }
 
-func TestType1(t *testing.T) { runType(t, 1, 25, 2500, 20) }
-func TestType2(t *testing.T) { runType(t, 2, 40, 4000, 25) }
-func TestType3(t *testing.T) { runType(t, 3, 40, 4000, 25) }
-func TestType5(t *testing.T) { runType(t, 5, 40, 4000, 25) }
+func TestType1(t *testing.T) { runType(t, 1, 25, 8000, 20) }
+func TestType2(t *testing.T) { runType(t, 2, 40, 16000, 25) }
+func TestType3(t *testing.T) { runType(t, 3, 40, 12000, 25) }
+func TestType5(t *testing.T) { runType(t, 5, 40, 16000, 25) }
 
 // TestExhaustiveBitFlips: every bit position of the honest response, for a few runs per type.
 func TestExhaustiveBitFlips(t *testing.T) {
@@ -307,7 +307,7 @@ func TestExhaustiveBitFlips(t *testing.T) {
 	for _, typ := range []uint16{1, 2, 3, 5} {
 		typ := typ
 		t.Run(gen.TypeName(typ), func(t *testing.T) {
-			rt.Check(t, 1, 8, func(t *rapid.T) {
+			rt.Check(t, 1, 32, func(t *rapid.T) {
 				defer rt.Entropy(gen.Seed().Draw(t, "entropy"))()
 				p, err := newPair(t, typ)
 				if err != nil {
@@ -332,7 +332,7 @@ func TestExhaustiveBitFlips(t *testing.T) {
 func TestOtherKeySizes(t *testing.T) {
 	s := rt.S("other-key-sizes").SetRule("types 2 and 3 with an issuer RSA key of 1024, 3072 or 4096 bits (the token format carries a 256-byte authenticator): honest request, honest response, and a few transformed responses; oracle: finalization returns an error or a token that verifies under the pinned key and is bound to the request. non-trivial = every case; distinct by (key size, request)")
 	keys := gen.RSAOddKeys()
-	rt.Check(t, 12, 600, func(t *rapid.T) {
+	rt.Check(t, 12, 1600, func(t *rapid.T) {
 		defer rt.Entropy(gen.Seed().Draw(t, "entropy"))()
 		key := gen.Pick(t, keys, "key")
 		chal, nonce := gen.Challenge().Draw(t, "challenge"), gen.Bytes32().Draw(t, "nonce")
@@ -393,7 +393,7 @@ func TestOtherKeySizes(t *testing.T) {
 // property is per call; calls that share nothing but the library's package-level state must each still satisfy it.
 func TestConcurrentFinalization(t *testing.T) {
 	s := rt.S("concurrent-finalization").SetRule("per case 8 goroutines, each with its own 6 request states of a drawn type and their honest responses (prepared sequentially), finalize them at the same time; oracle per call: an error (would be C01's business, also reported) or a token that verifies under the pinned key and is bound to its own request. non-trivial = every case; distinct by the first request's bytes")
-	rt.Check(t, 6, 400, func(t *rapid.T) {
+	rt.Check(t, 6, 800, func(t *rapid.T) {
 		const workers, rounds = 8, 6
 		type job struct {
 			sess *gen.Session
